@@ -33,6 +33,7 @@ EXTRA = {
     "samecontent": {1: [("put", "f", "c1", "c2"), ("get", "f")], 2: [("put", "f", "c1", "c2"), ("list",)]},
 }
 CASRACE3 = {1: [("put", "f", "c1", "c2")], 2: [("put", "f", "c2", "c3")], 3: [("delete", "f", "c2"), ("get", "f")]}
+PROGRAMS["casrace3"] = CASRACE3
 LIST_RACE = {1: [("put", "f", "c1", "c2"), ("put", "g", "c1", "c3")], 2: [("list",)]}
 
 
